@@ -261,6 +261,7 @@ fn cmd_worker(a: &Args) -> i32 {
     let max_violations: u64 = a.map.get("max-violations").and_then(|s| s.parse().ok()).unwrap_or(3);
     let recheck_every: u64 = a.map.get("recheck-every").and_then(|s| s.parse().ok()).unwrap_or(100);
     let sample_every: u64 = ((rb - ra) / 3).max(1);
+    sim::HEARTBEAT_ON.store(true, std::sync::atomic::Ordering::Relaxed);
 
     let mut agg = Agg {
         evaluations: 0,
